@@ -183,3 +183,59 @@ def leaves_of_shape(t):
     for c in t[2]:
         out.extend(leaves_of_shape(c))
     return out
+
+
+def one_tree(ref, a=None, p=None, q=None):
+    """Some derivation tree of [p,q) from a (default: a sentence derivation), found by a
+    search that never re-enters the same (nonterminal, span) on one path -- works for
+    cyclic grammars too.  Returns a shape or None."""
+    if a is None:
+        a, p, q = ref.start, ref.sk(0), ref.n
+    path = set()
+    budget = [200000]
+
+    def nt(a, p, q):
+        key = (a, p, q)
+        if key in path or q not in ref.ends(a, p):
+            return None
+        budget[0] -= 1
+        if budget[0] < 0:
+            return None
+        path.add(key)
+        try:
+            for pid in ref.by_lhs.get(a, []):
+                kids = seq(ref.prods[pid][1], 0, p, q)
+                if kids is not None:
+                    return ("N", pid, kids)
+            return None
+        finally:
+            path.discard(key)
+
+    def seq(rhs, i, p, q):
+        if i == len(rhs):
+            return () if p == q else None
+        kind, x = rhs[i]
+        if kind == 0:
+            if p < ref.n and x < len(ref.rx) and ref.rx[x][p]:
+                l = ref.rx[x][p]
+                rest = seq(rhs, i + 1, ref.sk(p + l), q)
+                if rest is not None:
+                    return (("L", x, p, p + l),) + rest
+            return None
+        for m in sorted(ref.ends(x, p)):
+            if m > q:
+                continue
+            t = nt(x, p, m)
+            if t is None:
+                continue
+            rest = seq(rhs, i + 1, m, q)
+            if rest is not None:
+                return (t,) + rest
+        return None
+
+    old = sys.getrecursionlimit()
+    sys.setrecursionlimit(10000)
+    try:
+        return nt(a, p, q)
+    finally:
+        sys.setrecursionlimit(old)
